@@ -71,6 +71,7 @@ CMDS = [
     ("cmd", "sync", "--test-force-autosave-at", "2"),
     ("cmd", "scrub", "-p", "full"), ("cmd", "fix"), ("cmd", "fix", "-f", "a"), ("cmd", "fix", "-d", "d2"),
     ("cmd", "rehash"), ("cmd", "touch"), ("cmd", "sync", "-N"),
+    ("cmd", "fix", "-S", "0", "-B", "1"), ("cmd", "fix", "-S", "1", "-B", "2"), ("cmd", "check", "-B", "1"),
     ("cmd", "sync", "--test-run", "rm {root}/d1/a"),
     ("cmd", "sync", "--test-run", "touch -d @1500000000 {root}/d2/b"),
 ]
